@@ -21,7 +21,7 @@ ASSUMPTIONS = [
 ]
 REQUIRED = {t: ['fn:evaluate', 'fn:evaluate_exact', 'fn:evaluate_vector', 'zone:closed-element', 'zone:end-point', 'zone:near-layer', 'zone:far',
                 'where:other-piece', 'where:across-seam', 'time:at-end', 'time:inside', 'time:after-end', 'source:estimator-nodes',
-                'source:hostile', 'clause:integral', 'curve:UnitSquare', 'curve:PiSquare', 'curve:LShape', 'curve:Circle', 'curve:UnitInterval']
+                'source:hostile', 'elem:tiny', 'clause:integral', 'curve:UnitSquare', 'curve:PiSquare', 'curve:LShape', 'curve:Circle', 'curve:UnitInterval']
             for t in ('quick', 'thorough')}
 TIMEOUT = {'quick': 1200, 'thorough': 7200}
 CURVES = ['UnitSquare', 'PiSquare', 'LShape', 'Circle', 'UnitInterval']
@@ -150,6 +150,46 @@ def run_shard(spec, acc):
             pj = geo.piece_of(x0, x1)
             if geo.starts[pj] <= xh <= geo.starts[pj + 1]:
                 cases.append(('hostile', 'evaluate_exact', e, t, xh, None))
+    # ---------------- (b') very short elements (space level 9-14 of a side), built like the estimators build their children
+    from src.hierarchical_error_estimator import DummyElement
+    from src.mesh import Vertex
+    side0 = geo.starts[1] if not geo.circle else L / 4
+    tiny = []
+    for _ in range(max(20, spec['n_hostile'] // 40)):
+        k = rng.randint(9, 14)
+        h = side0 * 2.0**-k
+        p = rng.randrange(len(geo.starts) - 1)
+        plen = geo.starts[p + 1] - geo.starts[p]
+        x0 = geo.starts[p] + rng.choice([0.0, plen - h, rng.randrange(int(plen / h)) * h])
+        x0 = min(x0, geo.starts[p + 1] - h)
+        ht = max(h * h / rng.choice([1.0, 4.0, 16.0]), 1e-12)
+        t0 = rng.choice([0.0, 0.25, 0.5])
+        vs = [Vertex(t0, x0, -1), Vertex(t0, x0 + h, -1), Vertex(t0 + ht, x0 + h, -1), Vertex(t0 + ht, x0, -1)]
+        e = DummyElement(vs, gamma.pw_gamma[p])
+        tiny.append(e)
+    SL._init_elems(tiny)
+    for e in tiny:
+        t0, t1 = e.time_interval
+        x0, x1 = e.space_interval
+        h = e.h_x
+        for _ in range(6):
+            t = rng.choice([t1, t0 + 0.5 * (t1 - t0), t1 + (t1 - t0) * rng.choice([0.5, 2.0, 10.0])])
+            xk = rng.choice(['in', 'end', 'near', 'near-in'])
+            if xk == 'in':
+                xh = x0 + rng.uniform(0.05, 0.95) * h
+            elif xk == 'end':
+                xh = rng.choice([x0, x1])
+            elif xk == 'near':
+                d_ = h * 10**rng.uniform(-3, 0.5)
+                xh = rng.choice([x0 - d_, x1 + d_])
+            else:
+                d_ = max(h * 10**rng.uniform(-3, -0.5), 2e-5)
+                xh = rng.choice([x0 + d_, x1 - d_])
+            if geo.closed:
+                xh = xh % L
+            xh = min(max(xh, 0.0), L)
+            cases.append(('hostile', 'evaluate', e, t, xh, None))
+            acc.seen('elem:tiny')
     # ---------------- judge
     n_unconv = 0
     for source, fn, e, t, xh, recorded in cases:
